@@ -7,5 +7,5 @@ export GOFLAGS=-mod=mod GOPROXY=off GOSUMDB=off GOTOOLCHAIN=local CGO_ENABLED=1
 mkdir -p .bin .work evidence
 tools/gen-gomod.sh
 (cd harness && go build -tags verif -o "$ROOT/.bin/vh" ./cmd/vh && go build -race -tags verif -o "$ROOT/.bin/vh-race" ./cmd/vh)
-(cd "${VERIF_REPO:-/repo}" && go build -tags verif -o "$ROOT/.bin/dirk" .)
+(cd "${VERIF_REPO:-/repo}" && go build -tags verif -o "$ROOT/.bin/dirk" . && go build -race -tags verif -o "$ROOT/.bin/dirk-race" .)
 echo setup ok
